@@ -1051,6 +1051,13 @@ func (c *compiler) evalForExpression(node *ast.ForExpression) (interface{}, erro
 
 	riter := reflect.ValueOf(iter)
 	if riter.Kind() == reflect.Ptr {
+		if riter.IsNil() {
+			switch riter.Type().Elem().Kind() {
+			case reflect.Map, reflect.Slice, reflect.Array:
+				// a nil pointer to something iterable: nothing to iterate over
+				return nil, nil
+			}
+		}
 		riter = riter.Elem()
 	}
 
